@@ -134,6 +134,10 @@ def check(run, model, tier):
         st_tests = [t for t in g.nodes if t.kind == 'test' and isinstance(t.ast, ast.Compare) and any(status_const(x) == 'HANDLED' for x in ast.walk(t.ast))]
         in_tests = [t for t in g.nodes if t.kind == 'test' and any(isinstance(x, ast.Attribute) and x.attr == 'is_inner_signal' for x in ast.walk(t.ast))]
         ok1 = any(isinstance(t.ast.ops[0], (ast.Is, ast.Eq)) and guarded_by_edge(g, n, t, 'true') for t in st_tests)
+        if not ok1:
+            # the same through a local that holds the comparison (`is_hook = status is HANDLED` ... `if is_hook:`): the conditions that must hold at the HOOK line
+            from sa.boolflow import must_atoms as _ma
+            ok1 = any(op in ('Is', 'Eq') and r.endswith('.HANDLED') for (l, op, r) in _ma(g, n, inner.node, params=inner.params))
         ok2 = False
         for t in in_tests:
             i2, pol = strip_not(t.ast)
